@@ -712,3 +712,72 @@ func runMonitorConfined(p *Program, r *RuleResult) {
 		r.add("process.Monitor", "processes-do-not-touch-monitor-tables", Holds, "", "")
 	}
 }
+
+// R-LOCK-PAIRED (C11, C13, C02): every lock taken is released on every way out.
+func init() {
+	register(&Rule{Name: "R-LOCK-PAIRED", Min: 1,
+		Doc: "for every call of Lock/RLock on a sync.Mutex or sync.RWMutex in first-party code: no return of the function is reachable from the call without passing the matching Unlock/RUnlock on the same mutex, unless that unlock was deferred before; a lock that stays held after an error return blocks every later caller forever",
+		Run: runLockPaired})
+}
+
+func runLockPaired(p *Program, r *RuleResult) {
+	nFn, nLocks := 0, 0
+	for _, fn := range p.SrcFuncs {
+		if fn.Blocks == nil || !p.isFirstParty(fn) {
+			continue
+		}
+		nFn++
+		view := p.View(fn)
+		ord := 0
+		for _, c := range p.callsIn(fn) {
+			sc := c.Common().StaticCallee()
+			if sc == nil || sc.Pkg == nil || sc.Pkg.Pkg.Path() != "sync" || !(sc.Name() == "Lock" || sc.Name() == "RLock") {
+				continue
+			}
+			if _, isDefer := c.(*ssa.Defer); isDefer {
+				continue
+			}
+			nLocks++
+			ord++
+			mu := exprKey(c.Common().Args[0])
+			want := "Unlock"
+			if sc.Name() == "RLock" {
+				want = "RUnlock"
+			}
+			isUnlock := func(in ssa.Instruction) bool {
+				u, ok := in.(ssa.CallInstruction)
+				if !ok {
+					return false
+				}
+				us := u.Common().StaticCallee()
+				return us != nil && us.Pkg != nil && us.Pkg.Pkg.Path() == "sync" && us.Name() == want && exprKey(u.Common().Args[0]) == mu
+			}
+			// a deferred unlock anywhere in the function that is passed before or right after the lock
+			deferred := false
+			for _, b := range fn.Blocks {
+				for _, in := range b.Instrs {
+					if d, ok := in.(*ssa.Defer); ok && isUnlock(d) {
+						deferred = true
+					}
+				}
+			}
+			construct := fmt.Sprintf("%s#%d-of-%s", sc.Name(), ord, displayKey(c.Common().Args[0]))
+			if deferred {
+				r.add(fnName(fn), construct, Holds, p.instrPos(c), "released by a deferred "+want)
+				continue
+			}
+			hits := view.mayReachFrom(c, nil, func(in ssa.Instruction) bool { _, ok := in.(*ssa.Return); return ok }, isUnlock)
+			if len(hits) > 0 {
+				r.add(fnName(fn), construct, Violated, p.instrPos(c),
+					fmt.Sprintf("the function can return at %s with the lock still held: the next caller blocks forever in %s", p.instrPos(hits[0]), sc.Name()))
+			} else {
+				r.add(fnName(fn), construct, Holds, p.instrPos(c), "every return is preceded by "+want)
+			}
+		}
+	}
+	if nFn >= 300 {
+		r.add("first-party code", "lock-calls-scanned", Holds, "", fmt.Sprintf("%d functions scanned, %d lock calls", nFn, nLocks))
+	} else {
+		r.add("first-party code", "lock-calls-scanned", Undecided, "", fmt.Sprintf("only %d functions scanned", nFn))
+	}
+}
